@@ -253,6 +253,9 @@ func outcomeSig(o readOutcome) string {
 		}
 	}
 	// tempo map is part of the public value too
+	if o.s == nil {
+		return "ok:nil-value"
+	}
 	for _, tc := range o.s.TempoChanges() {
 		h = h.U64(uint64(tc.AbsTicks)).U64(uint64(tc.AbsTimeMicroSec)).Str(fmt.Sprint(tc.BPM))
 	}
